@@ -52,6 +52,15 @@ Theorem c12_request_exact : forall t m r, msg_ok m ->
 Proof. exact call_request_exact. Qed.
 Print Assumptions c12_request_exact.
 
+(** the same for FStandardClient.Oneway *)
+Theorem c12_oneway_exact : forall t m r, msg_ok m ->
+  (out (oneway t m r) = ReqTooLarge <-> 0 < request_limit t /\ request_limit t < framed_size m)
+  /\ (sent (oneway t m r) = None <-> 0 < request_limit t /\ request_limit t < framed_size m)
+  /\ (~ (0 < request_limit t /\ request_limit t < framed_size m) ->
+      sent (oneway t m r) = Some (framed_size m)).
+Proof. exact oneway_request_exact. Qed.
+Print Assumptions c12_oneway_exact.
+
 (** the same through Thrift's binary protocol, stated on message VALUES: the request is
     rejected iff 4 + headers + binary-encoded size of the message exceeds the limit *)
 Theorem c12_request_exact_binary : forall t h nl v r, 5 <= h -> 0 <= nl -> tval_ok v ->
